@@ -57,6 +57,29 @@ def tla_words(words):
     return "{" + ",\n   ".join(w2s(w) for w in words) + "}"
 
 
+
+def lock_model(rd, words, threads=(2, 3), label="c18"):
+    """Locks.tla over the observed nesting words: every combination, every interleaving, NoDeadlock.
+    Returns (violation dict or None, states, transitions)."""
+    wl = sorted(words)
+    mod = os.path.join(rd, "MCLocks.tla")
+    open(mod, "w").write("---- MODULE MCLocks ----\nEXTENDS Locks\nObserved ==\n  %s\n====\n" % tla_words(wl))
+    shutil.copy(os.path.join(v.SPEC, "Locks.tla"), os.path.join(rd, "Locks.tla"))
+    states = trans = 0
+    for nthreads in threads:
+        cfg = os.path.join(rd, "MCLocks_%d.cfg" % nthreads)
+        open(cfg, "w").write("CONSTANTS Words <- Observed  NThreads = %d\nSPECIFICATION Spec\nINVARIANT NoDeadlock\n" % nthreads)
+        r = v.run_tlc("MCLocks", cfg, rd, workers=8, timeout=1200, spec_dir=rd, coverage=False)
+        v.tlc_ok(r, "Locks(%d threads)" % nthreads)
+        states += r.distinct
+        trans += r.generated
+        if r.violation:
+            p = v.save_replay(label, "locks_%d.out" % nthreads, r.out[-6000:])
+            v.save_replay(label, "MCLocks.tla", open(mod).read())
+            return ({"what": "observed lock nestings can deadlock (%d threads): %s" % (nthreads, r.violation),
+                     "replay": p, "key": "lock-order"}, states, trans)
+    return None, states, trans
+
 def run(tier, seed):
     rd = v.run_dir("c18")
     fxv = v.build_harness()
